@@ -456,7 +456,7 @@ THOROUGH = {
 def run_kernels(check, pool, Task):
     tier = check.tier
     plan = THOROUGH if tier == 'thorough' else QUICK
-    seeds = 4 if tier == 'thorough' else 2
+    seeds = 4 if tier == 'thorough' else 3
     cap = 900 if tier == 'thorough' else 400
     check.bounds.update({'coordinates': '|v| <= 2^25 (integers; dyadic rationals reduce to integers by homogeneity)',
                          'kernel_structures': plan})
